@@ -124,6 +124,24 @@ def parseEv (l : List String) : Option Ev :=
   | "res" :: ts => some (.res ts)
   | _ => none
 
+/-- split the block's lines into runs, also keeping the raw lines whose first token is in `keep` -/
+def splitRunsWith (keep : List String) (lines : List (List String)) : List (List Ev × List (List String)) :=
+  let rec go (ls : List (List String)) (cur : Option (List Ev × List (List String)))
+      (acc : List (List Ev × List (List String))) : List (List Ev × List (List String)) :=
+    match ls with
+    | [] => (match cur with | some c => ((c.1.reverse, c.2.reverse) :: acc) | none => acc).reverse
+    | l :: rest =>
+      if l.head? = some "run" then
+        go rest (some ([], [])) (match cur with | some c => (c.1.reverse, c.2.reverse) :: acc | none => acc)
+      else match cur with
+        | none => go rest none acc
+        | some c =>
+          if keep.contains (l.headD "") then go rest (some (c.1, l :: c.2)) acc
+          else match parseEv l with
+            | some e => go rest (some (e :: c.1, c.2)) acc
+            | none => go rest cur acc
+  go lines none []
+
 /-- split the block's lines into runs -/
 def splitRuns (lines : List (List String)) : List (List Ev) :=
   let rec go (ls : List (List String)) (cur : Option (List Ev)) (acc : List (List Ev)) : List (List Ev) :=
@@ -467,7 +485,8 @@ def runCall (fl : Flags) (b : Block) : Res :=
   let dl := (field b "dump").getD []
   let (mv, me) := dumpOf cgr.cg
   let cd : Option String :=
-    if dl.head? = some "panic" then some "dump_panicked"
+    if dl.head? = some "skip" then none
+    else if dl.head? = some "panic" then some "dump_panicked"
     else
       let iv := ((kv dl "v").getD "").splitOn "," |>.filter (· ≠ "")
       let ie := ((kv dl "e").getD "").splitOn "," |>.filter (· ≠ "")
@@ -524,7 +543,13 @@ def runCall (fl : Flags) (b : Block) : Res :=
   let firstOutcome := outcomeClass (resOf (runs.headD []))
   let nexec := ((runs.headD []).filter (fun e => match e with | .exec .. => true | _ => false)).length
   let depth := (outs.map (fun o => ((buildOracle o.2.2).1).length)).foldl Nat.max 0
-  { conform := conform, propNA := true, props := agg ++ [("C05", c05), ("C07", c07)],
+  let c08 : String :=
+    if fam = "redefcall" then
+      (match runs.find? (fun r => let c := outcomeClass (resOf r); c == "unsat" || c == "missingarg") with
+       | some r => s!"FAIL:redefined_function_failed_for_lack_of_an_argument_{noSpace (showImplRes (resOf r))}"
+       | none => "ok")
+    else "na"
+  { conform := conform, propNA := true, props := agg ++ [("C05", c05), ("C07", c07), ("C08", c08)],
     stats := [s!"outcome={firstOutcome}", s!"execs={nexec}", s!"convs={fx.convs.length}", s!"depth={depth}",
               s!"class={if fx.exactAll then "exact" else if !fx.underiv.isEmpty then "underiv" else "deriv"}",
               s!"runs={runs.length}"] }
